@@ -1349,6 +1349,7 @@ class _Desugar(ast.NodeTransformer):
     def __init__(self, consts=None):
         self.count = 0
         self.consts = consts or {}
+        self.records = {}
 
     def _block(self, stmts):
         out = []
@@ -1361,8 +1362,8 @@ class _Desugar(ast.NodeTransformer):
                 out.extend(rep)
                 self.count += 1
         out = self._search_then_use(self._first_match(self._walrus(
-            self._unroll(self._table_comprehension(
-                self._accumulate(self._devirtualise(out)))))))
+            self._unroll(self._unroll_records(self._table_comprehension(
+                self._accumulate(self._devirtualise(out))))))))
         out = self._conditional_assign(self._match_literals(out))
         return self._dict_dispatch(out)
 
@@ -1717,6 +1718,88 @@ class _Desugar(ast.NodeTransformer):
             out = out[:i] + between + chain + out[j + 1:]
             self.count += 1
         return out
+
+    def _unroll_records(self, stmts):
+        """for r in TABLE: body   where TABLE is a module-level tuple of
+        records Rec(a, b=..) of a namedtuple defined in the module and the
+        body reads r only as r.<field>: the sequence of its bodies, every
+        r.<field> written out (up to 32 rows)."""
+        out = []
+        for st in stmts:
+            rows = None
+            if isinstance(st, ast.For) and not st.orelse and \
+                    isinstance(st.target, ast.Name) and \
+                    isinstance(st.iter, ast.Name) and \
+                    st.iter.id in self.consts:
+                rows = self._record_rows(self.consts[st.iter.id])
+            var = st.target.id if rows is not None else None
+            if rows is None or any(
+                    isinstance(n, (ast.Break, ast.Continue))
+                    for b in st.body for n in ast.walk(b)):
+                out.append(st)
+                continue
+            # every use of the loop variable is r.<field>
+            pm = {}
+            for b in st.body:
+                for x in ast.walk(b):
+                    for ch in ast.iter_child_nodes(x):
+                        pm[ch] = x
+            uses = [n for b in st.body for n in ast.walk(b)
+                    if isinstance(n, ast.Name) and n.id == var]
+            if not all(isinstance(n.ctx, ast.Load) and
+                       isinstance(pm.get(n), ast.Attribute) and
+                       pm[n].value is n and pm[n].attr in rows[0]
+                       for n in uses):
+                out.append(st)
+                continue
+            import copy as _c
+
+            class F(ast.NodeTransformer):
+                def __init__(self2, row):
+                    self2.row = row
+
+                def visit_Attribute(self2, node):
+                    if isinstance(node.value, ast.Name) and \
+                            node.value.id == var and node.attr in self2.row:
+                        return _c.deepcopy(self2.row[node.attr])
+                    return self2.generic_visit(node)
+            for row in rows:
+                for b in st.body:
+                    out.append(F(row).visit(_c.deepcopy(b)))
+            self.count += 1
+        return out
+
+    def _record_rows(self, table):
+        """[{field: expr}] when every element of the tuple is a call of one
+        record type of the module with plain arguments, else None."""
+        if not isinstance(table, (ast.Tuple, ast.List)) or \
+                not 1 <= len(table.elts) <= 32:
+            return None
+        rows = []
+        for e in table.elts:
+            if not (isinstance(e, ast.Call) and isinstance(e.func, ast.Name)
+                    and e.func.id in self.records):
+                return None
+            fields, dflt = self.records[e.func.id]
+            if any(isinstance(a, ast.Starred) for a in e.args) or \
+                    any(k.arg is None for k in e.keywords) or \
+                    len(e.args) > len(fields):
+                return None
+            row = dict(zip(fields, e.args))
+            for k in e.keywords:
+                if k.arg not in fields or k.arg in row:
+                    return None
+                row[k.arg] = k.value
+            for f_, d_ in zip(reversed(fields), reversed(dflt)):
+                row.setdefault(f_, d_)
+            if set(row) != set(fields) or not all(
+                    isinstance(v, ast.Constant) or _simple_arg(v) or
+                    isinstance(v, ast.JoinedStr) or
+                    (isinstance(v, ast.BinOp) and isinstance(v.op, ast.Add))
+                    for v in row.values()):
+                return None
+            rows.append(row)
+        return rows
 
     def _table_comprehension(self, stmts):
         """x = {K: V for T in <literal table> if C}   ->
@@ -2404,6 +2487,32 @@ def desugar(trees):
                 for name in x.names:
                     consts.pop(name, None)
         d = _Desugar(consts)
+        # record types: NAME = namedtuple('NAME', 'a b c', defaults=(..))
+        for st in t.body:
+            if isinstance(st, ast.Assign) and len(st.targets) == 1 and \
+                    isinstance(st.targets[0], ast.Name) and \
+                    bound.get(st.targets[0].id) == 1 and \
+                    isinstance(st.value, ast.Call) and \
+                    ast.unparse(st.value.func) in (
+                        'namedtuple', 'collections.namedtuple') and \
+                    len(st.value.args) == 2:
+                spec = st.value.args[1]
+                fields = None
+                if isinstance(spec, ast.Constant) and \
+                        isinstance(spec.value, str):
+                    fields = spec.value.replace(',', ' ').split()
+                elif isinstance(spec, (ast.Tuple, ast.List)) and all(
+                        isinstance(e, ast.Constant) for e in spec.elts):
+                    fields = [e.value for e in spec.elts]
+                dflt = []
+                for kw_ in st.value.keywords:
+                    if kw_.arg == 'defaults' and isinstance(
+                            kw_.value, (ast.Tuple, ast.List)):
+                        dflt = list(kw_.value.elts)
+                    elif kw_.arg != 'defaults':
+                        fields = None
+                if fields:
+                    d.records[st.targets[0].id] = (fields, dflt)
         d.visit(t)
         if d.count:
             ast.fix_missing_locations(t)
